@@ -1,5 +1,5 @@
 (* C13 -- transport faults surface as transport errors, never as data. *)
-From TM Require Import Base Frame Pdu RtuCodec Framed Client FramedProofs FramedMore ClientProofs Histories.
+From TM Require Import Base Frame Pdu RtuCodec TcpCodec Framed Client FramedProofs FramedMore ClientProofs Histories PartialFrame.
 
 (* end of stream or a read error after ANY proper prefix of the reply (any chunking) *)
 Theorem C13_read_fault : forall p m st req bg f i cs tl w bg1 (e : revt),
@@ -36,3 +36,24 @@ Theorem C13_write_pieces : forall frame w bg r w' bg' pn,
   exists fr, (fr = [] \/ frame = Val fr) /\ accepted w' ++ wbuf w' = accepted w ++ wbuf w ++ fr
              /\ (r = SOk -> pn = false -> frame = Val fr /\ wbuf w' = []) /\ r <> SWait.
 Proof. exact send_conserve. Qed.
+
+(* "never success built from a partial frame", for ARBITRARY bytes: what has arrived when the stream ends or fails is a PARTIAL frame --
+   the decoder has accepted its beginning as the start of a reply announcing more bytes than have arrived (RTU: the response length
+   table; TCP: a non-zero MBAP length field, or fewer than 7 bytes).  Whatever those bytes are -- in particular when the payload received
+   so far contains a complete, CRC-correct reply of its own ([C13_ex_embedded]) -- and however they were chunked: a transport error *)
+Theorem C13_partial_frame_then_fault : forall p m st req bg cs tl w bg1 (e : revt),
+  framed st = true -> clean st -> reof (rst st) = false -> rreadable (rst st) = false ->
+  send (client_enc p m (req_hdr p st) req) (wio_ st) bg = (SOk, w, bg1, false) ->
+  Forall nonempty cs -> partial_cli p (concat cs) ->
+  rq st = datas cs ++ e :: tl -> (e = REof \/ exists k, e = RErr k) ->
+  exists k, fst (call p m st req bg) = CRTransport k.
+Proof. exact partial_then_fault_is_transport_error. Qed.
+(* being partial is inherited by every prefix (so every intermediate buffer was partial too), and a partial buffer yields nothing *)
+Theorem C13_partial_prefix_closed : forall p q y, partial_cli p (q ++ y) -> partial_cli p q.
+Proof. exact partial_cli_prefix. Qed.
+Theorem C13_partial_yields_nothing : forall p d, partial_cli p d -> client_dec p d = (d, DNone).
+Proof. exact partial_cli_undecided. Qed.
+Example C13_ex_embedded :
+  partial_cli RTU [0x59; 0x01; 0x0c; 0x00; 0x59; 0x01; 0x01; 0xc9; 0x82; 0xbe; 0x58]
+  /\ rtu_client_dec [0x59; 0x01; 0x01; 0xc9; 0x82; 0xbe] = ([], DSome ((0, 0x59), RROk (RspReadCoils [true; false; false; true; false; false; true; true]))).
+Proof. exact embedded_reply_is_partial. Qed.
